@@ -27,6 +27,7 @@ Inductive action :=
 | AFeedEof (f : feed)                   (* stream framing: the last bytes of the frame come back from Read together with EOF *)
 | AFeedHold (f : feed)                  (* the reader reads the frame and looks up its waiter, then is parked before the hand-over *)
 | AReaderGo                             (* the parked reader hands the frame over and reads on *)
+| AFeedSplit (f : feed)                 (* stream framing: the frame arrives in two pieces; for the reader it is one frame *)
 | ASleep.                               (* datagram framing only: more than a second of real time passes (the caller re-sends) *)                        (* datagram framing only: a datagram of n < 12 bytes arrives; the reader skips it *)                      (* test hook VerifSetNextQid: forces the wire-id counter *)
 
 (** What the harness saw. [o_code]: AReserve: 0 admitted, 1 refused (full),
@@ -108,6 +109,14 @@ Definition exec_action (s : st) (held : list nat) (a : action) (o : obs) : optio
              end in
     if is_tcp s then
       match steps s [LRecv r; LLookup; LHandoff; LRecvErr] with Some s1 => Some (s1, held, true) | None => None end
+    else None
+  | AFeedSplit f =>
+    let r := match f with
+             | FReply c tag => let w := cwid (calls s c) in mkReply w w tag (Some c)
+             | FStray w tag => mkReply w w tag None
+             end in
+    if is_tcp s then
+      match steps s [LRecv r; LLookup; LHandoff] with Some s1 => Some (s1, held, true) | None => None end
     else None
   | AFeedHold f =>
     let r := match f with
@@ -256,7 +265,8 @@ Fixpoint orig_of (c : nat) (sc : list (action * obs)) : N :=
 Fixpoint tags_for (c : nat) (sc : list (action * obs)) : list N :=
   match sc with
   | [] => []
-  | (AFeed (FReply c' tag), _) :: t | (AFeedEof (FReply c' tag), _) :: t | (AFeedHold (FReply c' tag), _) :: t =>
+  | (AFeed (FReply c' tag), _) :: t | (AFeedEof (FReply c' tag), _) :: t | (AFeedHold (FReply c' tag), _) :: t
+  | (AFeedSplit (FReply c' tag), _) :: t =>
     if Nat.eqb c c' then tag :: tags_for c t else tags_for c t
   | _ :: t => tags_for c t
   end.
@@ -303,7 +313,7 @@ Fixpoint c02_walk (script : list (action * obs)) (tk : trk) (sc : list (action *
       match a with
       | AStart c => if o_code o =? 0 then tk else mkTrk (c :: t_inflight tk) (t_cancelled tk) (t_owed tk) (t_pend tk)
       | ACancel c => mkTrk (t_inflight tk) (c :: t_cancelled tk) (t_owed tk) (t_pend tk)
-      | AFeed (FReply c tag) | AFeedEof (FReply c tag) => c02_deliver tk c tag
+      | AFeed (FReply c tag) | AFeedEof (FReply c tag) | AFeedSplit (FReply c tag) => c02_deliver tk c tag
       | AFeedHold (FReply c tag) => mkTrk (t_inflight tk) (t_cancelled tk) (t_owed tk) (Some (c, tag))
       | AReaderGo =>
         match t_pend tk with
@@ -335,7 +345,7 @@ Fixpoint owed_calls (script : list (action * obs)) (inflight cancelled owed : li
     let inflight1 := match a with AStart c => if o_code o =? 0 then inflight else c :: inflight | _ => inflight end in
     let cancelled1 := match a with ACancel c => c :: cancelled | _ => cancelled end in
     let owed1 := match a with
-                 | AFeed (FReply c _) | AFeedEof (FReply c _) =>
+                 | AFeed (FReply c _) | AFeedEof (FReply c _) | AFeedSplit (FReply c _) =>
                    if mem_nat c inflight1 && negb (mem_nat c cancelled1) then c :: owed else owed
                  | _ => owed end in
     owed_calls script (filter (fun c => match ret_of c o with Some _ => false | None => true end) inflight1)
@@ -419,7 +429,7 @@ Fixpoint c07_walk (strict : bool) (tk : trk7) (sc : list (action * obs)) : bool 
       | AWriteEnd c false _ => mkTrk7 (k_inflight tk) (k_waiting tk) (k_cancelled tk) true (k_replied tk)
       | ACancel c => mkTrk7 (k_inflight tk) (k_waiting tk) (c :: k_cancelled tk) (k_closed tk) (k_replied tk)
       | AFeedErr | AClose | AExpire | AFeedEof (FStray _ _) => mkTrk7 (k_inflight tk) (k_waiting tk) (k_cancelled tk) true (k_replied tk)
-      | AFeed (FReply c _) | AFeedHold (FReply c _) => mkTrk7 (k_inflight tk) (remove_nat c (k_waiting tk)) (k_cancelled tk) (k_closed tk) (if mem_nat c (k_inflight tk) then c :: k_replied tk else k_replied tk)
+      | AFeed (FReply c _) | AFeedHold (FReply c _) | AFeedSplit (FReply c _) => mkTrk7 (k_inflight tk) (remove_nat c (k_waiting tk)) (k_cancelled tk) (k_closed tk) (if mem_nat c (k_inflight tk) then c :: k_replied tk else k_replied tk)
       | AFeedEof (FReply c _) => mkTrk7 (k_inflight tk) (remove_nat c (k_waiting tk)) (k_cancelled tk) true (if mem_nat c (k_inflight tk) then c :: k_replied tk else k_replied tk)
       | _ => tk
       end in
